@@ -471,7 +471,8 @@ def operand? : Sexp → Option Nat
   | .atom "c" => some 2
   | _ => none
 
-/-- Parses `(l X)`, `(and F*)`, `(or F*)`, `(not F)`; leaf tags are assigned in reading order
+/-- Parses `(l X)`, `(and F*)`, `(or F*)`, `(not F)` and the operator forms `(and2 F G)` (`F & G` =
+`And::new([F, G])`), `(or2 F G)` (`F | G`), `(not1 F)` (`!F`, logical.rs `impl ops::…`); leaf tags are assigned in reading order
 (`next` is the first free tag). Fuel = nesting bound of the parser (total). -/
 def parseForm : Nat → Sexp → Nat → Option (Form × Nat)
   | 0, _, _ => none
@@ -481,6 +482,9 @@ def parseForm : Nat → Sexp → Nat → Option (Form × Nat)
     | .list [.atom "not", f] => (parseForm fuel f next).map fun (g, n') => (Form.not g, n')
     | .list (.atom "and" :: fs) => (parseForms fuel fs next).map fun (gs, n') => (Form.and gs, n')
     | .list (.atom "or" :: fs) => (parseForms fuel fs next).map fun (gs, n') => (Form.or gs, n')
+    | .list [.atom "not1", f] => (parseForm fuel f next).map fun (g, n') => (Form.not g, n')
+    | .list [.atom "and2", f, g] => (parseForms fuel [f, g] next).map fun (gs, n') => (Form.and gs, n')
+    | .list [.atom "or2", f, g] => (parseForms fuel [f, g] next).map fun (gs, n') => (Form.or gs, n')
     | _ => none
 where
   parseForms (fuel : Nat) : List Sexp → Nat → Option (Forms × Nat)
